@@ -71,13 +71,13 @@ def run(ctx):
   vals_q = (0, 'pd', 'sd', 'pl', 'MISSING')
   if ctx.thorough:
     plans = [
-        (TreeSpace([(n, 'smalld') for n in st.ROOT_NAMES], vals_q + ('obj', 'pnest'), max_nodes=9), 2),
+        (TreeSpace([(n, 'smalld') for n in st.ROOT_NAMES], vals_q + ('obj', 'pnest', 'objdup', 'sddup', 'sldup'), max_nodes=9), 2),
         (TreeSpace([('listofdict', 'none'), ('dict', 'none'), ('obj', 'none'), ('tlist', 'none')],
                    (0, 'sd', 'MISSING'), max_nodes=7, rich=True), 3),
     ]
   else:
     plans = [
-        (TreeSpace([(n, 'smalld') for n in st.ROOT_NAMES], vals_q, max_nodes=9), 1),
+        (TreeSpace([(n, 'smalld') for n in st.ROOT_NAMES], vals_q + ('objdup', 'sddup', 'sldup'), max_nodes=9), 1),
         (TreeSpace([('listofdict', 'none'), ('obj', 'none'), ('dict', 'none'), ('tlist', 'none')],
                    (0, 'sd', 'MISSING'), max_nodes=6, rich=True), 2),
     ]
